@@ -31,16 +31,22 @@ Oracle (independent of the model, after every step): P1 a successful commit in
     P5 pull from the master leaves the local tip = master tip unless the local
     branch already contains the master's tip (then nothing changes) or the
     two have diverged (then DivergedBranches and nothing changes); update of
-    M / L bases the tree on the master tip.
+    M / L bases the tree on the master tip; P6 a commit from a tree that is not
+    based on the (non-null) tip it commits to is refused; P7 local commits that
+    update pivots out of the local branch stay referenced as a pending merge.
 
-Mutants tried in a scratch worktree: see the builder's report / list at the end
-of this docstring.
+Finding on the unchanged code (family update-bound-to-empty-master-keeps-local-tip):
+update in a checkout bound to an EMPTY master after commit --local leaves the
+local tip ahead of the master (_update_revisions returns early for a null source
+tip even with overwrite) - model: update_empty_master_witness.
+
+Mutants tried in a scratch worktree (the family above ignored):
  m1 _update_branches: local tip written before the master            -> oracle P1 (order of tip writes) + T2
  m2 _check_bound_branch: the local/master comparison removed           -> oracle P2 + T2
  m3 _check_bound_branch: master looked up also for --local              -> oracle P3 + T2
  m4 BzrBranch.update: pull without overwrite                            -> oracle P4 (DivergedBranches) + T2
- m5 _check_out_of_date_tree: comparison against the local tip when bound -> T2 / oracle
- m6 _update_tree: old tip not kept as pending merge                     -> T2 (tree parents)
+ m5 _check_out_of_date_tree: null test applied to the tree parent        -> oracle P6 + T2
+ m6 _update_tree: old tip not kept as pending merge                     -> oracle P7 + T2 (tree parents)
  harmless: _update_branches with the progress-stage calls removed        -> clean
 """
 import os
@@ -192,6 +198,9 @@ def run_sequence(ops):
             if op == "p":
                 local_ahead = is_anc(w, before["master"][1], before["local"][1])
                 diverged = not local_ahead and not is_anc(w, before["local"][1], before["master"][1])
+            pivot = None
+            if op == "uH" and before["bound"] and before["master"][1] != NULL:
+                pivot = not is_anc(w, before["local"][1], before["master"][1])
             out = w.do(op)
             log = list(w.log)
             ob = w.observe()
@@ -208,6 +217,13 @@ def run_sequence(ops):
                 unchanged("refused with %s" % out)
                 if log:
                     viol.append((tag + "refused with %s but tips were written: %r" % (out, log), None))
+            if k[0] in "cl":
+                # P6: a tree that is not based on the tip it commits to must be refused
+                who = k[1]
+                ref = before["master"] if (who in "ML" or (who == "H" and before["bound"] and k[0] == "c")) else before["local"]
+                tp = (before["parents"][who][:1] or [NULL])[0]
+                if ref[1] != NULL and ref[1] != tp and out == "ok":
+                    viol.append((tag + "commit accepted although the tree is based on %s and the branch tip is %s" % (tp, ref[1]), None))
             if k == "cH":
                 if before["bound"] and before["master"][1] != before["local"][1]:
                     if out != "E:BoundBranchOutOfDate":
@@ -242,6 +258,9 @@ def run_sequence(ops):
                         viol.append((tag + "update in the bound checkout left local %r, master %r" % (ob["local"], ob["master"]), fam))
                     elif (ob["parents"]["H"][:1] or [NULL]) != [ob["master"][1]]:
                         viol.append((tag + "update left the tree based on %r, master tip %r" % (ob["parents"]["H"], ob["master"]), None))
+                    elif pivot and before["local"][1] not in ob["parents"]["H"]:
+                        # P7: local commits pivoted out of the branch must stay referenced as a pending merge
+                        viol.append((tag + "update dropped the old local tip %s: tree parents %r" % (before["local"][1], ob["parents"]["H"]), None))
                 else:
                     if ob["local"] != before["local"] or ob["master"] != before["master"]:
                         viol.append((tag + "update of an unbound tree moved a branch tip", None))
